@@ -1,54 +1,3 @@
-"""Per-property configuration of ./check (layers, trusted base, assumptions)."""
-import re
-
-TB_COMMON = [
-    "Lean 4.33.0 kernel (leanchecker re-check in thorough); axioms limited to propext, Classical.choice, Quot.sound (audited with #print axioms on every theorem)",
-    "the hand-written Lean model /verif/lean/BasicModel/Model/*.lean, tied to /repo by the differential correspondence run by this check (Rust harness /verif/harness, rebuilt from /repo's working tree)",
-    "Lean compiler/runtime for the executable driver (can hide a disagreement, cannot make a false theorem check)",
-    "canonicalisation in harness/src/proto.rs and BasicModel/Proto.lean (hex strings, float bit patterns, NaN collapsed)",
-]
-
-ASSUME_FLOAT = "IEEE-754 arithmetic and libm are opaque in theorems; executable via Lean Float/Float32 (same hardware/glibc as Rust)"
-ASSUME_STD = "Rust std semantics as documented (checked_* integer ops, saturating `as` casts, str::parse, char_indices) — Model/Std.lean"
-
-
-def int_req(req):
-    return bool(re.match(r"(OP|SPEC int) ?(add|sub|mul|divint|mod|pow|neg|abs|cint|toi16) ", req.replace("SPEC int ", "SPEC int ")))
-
-
-NOT_YET = {}
-
-PROPS = {
-    "C08": {
-        "level_text": "Lean theorems over all 2^16 (unary) / 2^32 (binary) Integer operands: +,-,*,\\,MOD,^,unary minus,ABS return the exact result over Int or OVERFLOW / DIVISION BY ZERO, never a fault; float->Integer is exactly floor-or-OVERFLOW on the decoded bit pattern. The model is tied to /repo by exhaustive (unary) and boundary+random (binary) differential runs, and Spec.intBin is evaluated against the implementation as finder.",
-        "level_note": "Trusted: Lean kernel; axioms propext/Classical.choice/Quot.sound only; Model/Std.lean's reading of Rust's checked_* ops; the correspondence harness. Float arithmetic itself is not involved (integer decoding of bit patterns).",
-        "technique": "Lean 4 proof (omega/bmod lemmas over Int16.toInt) + exhaustive/boundary differential correspondence + Int-spec finder",
-        "layers": ["ops-int", "ops-conv"],
-        "trusted_base": TB_COMMON + [
-            "Model/Std.lean: documented meaning of i16::checked_add/sub/mul/neg/abs/div/rem/pow",
-            "Model/Ieee.lean: integer decoding of IEEE-754 bit patterns (floor is exact integer arithmetic, not Float)",
-        ],
-        "assumptions": [ASSUME_STD, "float → Integer conversion is specified on the decoded bit pattern (exact dyadic value)"],
-        "rule": "ops-int: every unary Integer op on all 65 536 values, every binary op on 39x39 boundary pairs plus random pairs (K = model vs impl; F = Spec.intBin/intUn over Int vs impl); ops-conv: conversions at every boundary ±4 ulp in f32 and f64 plus random bit patterns. distinct_nontrivial = distinct request lines whose answer is not TYPE MISMATCH",
-        "nontrivial": lambda req, ans: not ans.startswith("err 13@"),
-        # a model-vs-impl disagreement on an Integer operation is itself a violation of C08:
-        # the model is proved (Thm/C08.lean) to be exact-or-error on these requests
-        "k_is_violation": lambda req: bool(re.match(r"OP (add|sub|mul|divint|mod|neg|abs|pow) I-?\d+( I-?\d+)?$", req)) or bool(re.match(r"OP (toi16|cint) [SD]", req)),
-    },
-    "C07": {
-        "level_text": "Lean theorems for all strings (List Char) and all Integer arguments: LEFT$/RIGHT$/MID$ equal take/drop of the documented positions or OVERFLOW, the substring search equals the least-offset search, LEN/ASC/SPC/STRING$/concatenation/comparison as documented, failures are BASIC error codes (no fault). Character-level behaviour of the UTF-8 byte-slicing Rust code is tied to the model by a full grid of 1-4 byte characters x positions {-32768..32767 boundary set} and the Spec functions are evaluated against the implementation (finder).",
-        "level_note": "Partial: theorems are stated for Integer-typed position/length arguments (float arguments go through the proved floor conversion of C08); STR$/VAL/HEX$/OCT$ and the 255-character store limit are covered by correspondence only (store limit is proved under C06). Trusted: Lean kernel, Model/Std.lean reading of char_indices/str::find/str ordering, harness.",
-        "technique": "Lean 4 proof over List Char + differential correspondence on a multi-byte grid + list-spec finder",
-        "layers": ["ops-str"],
-        "trusted_base": TB_COMMON + ["Rust str::find / char_indices / Ord for str as documented (first match, char boundaries, byte-lexicographic = code-point order)"],
-        "assumptions": [ASSUME_STD, "strings in the model are lists of Unicode scalar values; the Rust code's byte offsets all come from char_indices (checked by the multi-byte grid)"],
-        "partial": "float-typed arguments, STR$/VAL/HEX$/OCT$: correspondence only",
-        "rule": "ops-str: 23 strings (ASCII, 2/3/4-byte, mixed, empty, 254-256 long) x 17 positions x 17 lengths for LEFT$/RIGHT$/MID$/STRING$, all pairs of 17 short strings x 12 starts for INSTR, concatenation/comparison of all pairs, CHR$/ASC around the scalar-value gaps, 48 numeric spellings for VAL, plus random strings; distinct_nontrivial = distinct request lines",
-        "k_is_violation": lambda req: bool(re.match(r"OP (left|right|mid|instr|len|asc|chr|string|spc|add|lt|le|gt|ge|eq|ne) ", req)),
-    },
-}
-
-
-def replay_session(pid, r, path, log):
-    log("session replay not available for this property")
-    return 2
+"""Per-property configuration of ./check lives in propcfg.py."""
+from propcfg import *  # noqa: F401,F403
+from propcfg import PROPS, NOT_YET, replay_session  # noqa: F401
